@@ -39,7 +39,11 @@ namespace fsh
             std::unique_ptr<G> grid;
             try
             {
-                fs::profile_boundary_status bs(L, R);
+                // the three constructors of the boundary status: one status, two statuses, an array
+                fs::profile_boundary_status bs = (L == R && n % 2 == 0)
+                                                     ? fs::profile_boundary_status(L)
+                                                     : (n % 3 == 0 ? fs::profile_boundary_status(std::array<fs::node_status, 2>{ L, R })
+                                                                   : fs::profile_boundary_status(L, R));
                 if (from_len)
                     grid = std::make_unique<G>(G::from_length(n, len, bs, ov));
                 else
